@@ -48,6 +48,17 @@ def _module_specs():
 PRIORS = ["NormalPrior", "LogNormalPrior", "GammaPrior", "HalfNormalPrior", "HalfCauchyPrior", "UniformPrior", "MultivariateNormalPrior", "SmoothedBoxPrior", "HorseshoePrior", "LKJPrior", "LKJCholeskyFactorPrior", "LKJCovariancePrior"]
 
 
+# classes whose constructor takes `<parameter>_prior=` arguments, with the other arguments they need
+CTOR_PRIOR_CLASSES = {
+    "RBFKernel": {}, "MaternKernel": {}, "RQKernel": {}, "PeriodicKernel": {}, "CosineKernel": {}, "LinearKernel": {}, "PolynomialKernel": {"power": 2},
+    "ConstantKernel": {}, "ScaleKernel": {"base_kernel": "RBFKernel"}, "SpectralMixtureKernel": {"num_mixtures": 2, "ard_num_dims": 2}, "ArcKernel": {"base_kernel": "MaternKernel"},
+    "CylindricalKernel": {"num_angular_weights": 3, "radial_base_kernel": "MaternKernel"}, "HammingIMQKernel": {"vocab_size": 3}, "PiecewisePolynomialKernel": {},
+    "GaussianLikelihood": {}, "LaplaceLikelihood": {}, "StudentTLikelihood": {}, "BetaLikelihood": {}, "ConstantMean": {}, "MultitaskGaussianLikelihood": {"num_tasks": 3},
+    "FixedNoiseGaussianLikelihood": {"noise": "rand4", "learn_additional_noise": True}, "RBFKernelGrad": {}, "Matern52KernelGrad": {}, "PolynomialKernelGrad": {"power": 2},
+    "SpectralDeltaKernel": {"num_dims": 2, "num_deltas": 3},
+}
+
+
 def cases(tier, seed):
     rnd = random.Random(17000 + seed)
     for (cname, kw), dtype, chunk in itertools.product(_constraint_specs(), ["float64", "float32"], range(3)):
@@ -64,6 +75,8 @@ def cases(tier, seed):
         for pr in PRIORS:
             for variant in range(2):
                 yield {"kind": "prior", "prior": pr, "variant": variant, "seed": rnd.randrange(10**6)}
+        for cname in CTOR_PRIOR_CLASSES:
+            yield {"kind": "ctor_priors", "cls": cname, "seed": rnd.randrange(10**6)}
         for spec in ("RBFKernel", "ScaleKernel", "GaussianLikelihood", "PeriodicKernel"):
             for pr in ("GammaPrior", "LogNormalPrior", "HalfCauchyPrior", "UniformPrior"):
                 yield {"kind": "registered", "module": spec, "prior": pr, "seed": rnd.randrange(10**6)}
@@ -153,7 +166,7 @@ def run_case(case, ctx):
     from vf import util
 
     g = util.gen(case["seed"])
-    return {"constraint": _constraint, "setter": _setter, "sequence": _sequence, "prior": _prior, "registered": _registered}[case["kind"]](case, ctx, g)
+    return {"constraint": _constraint, "setter": _setter, "sequence": _sequence, "prior": _prior, "registered": _registered, "ctor_priors": _ctor_priors}[case["kind"]](case, ctx, g)
 
 
 def _constraint(case, ctx, g):
@@ -323,6 +336,77 @@ def _sequence(case, ctx, g):
             break
         check_invariant(ctx, module, f"{op} ({i})")
     ctx.cell({"module": case["module"], "ops": ops})
+
+
+def _ctor_priors(case, ctx, g):
+    """every `<parameter>_prior=` constructor argument registers a prior that (a) is evaluated at the constrained value of
+    THAT parameter and (b) whose setting closure writes THAT parameter (what sample_from_prior relies on)"""
+    import inspect
+
+    import torch
+
+    import gpytorch
+    from vf import util
+
+    K, L, Mn, P = gpytorch.kernels, gpytorch.likelihoods, gpytorch.means, gpytorch.priors
+    cname = case["cls"]
+    cls_ = next(getattr(ns, cname) for ns in (K, L, Mn) if hasattr(ns, cname))
+    kw = {}
+    for k_, v_ in CTOR_PRIOR_CLASSES[cname].items():
+        kw[k_] = getattr(K, v_)() if isinstance(v_, str) and hasattr(K, v_) else (torch.rand(4) + 0.1 if v_ == "rand4" else v_)
+    names = []
+    for base in cls_.__mro__:  # constructors forward **kwargs to their base classes
+        if "__init__" in base.__dict__:
+            for p_ in inspect.signature(base.__init__).parameters:
+                if p_.endswith("_prior") and p_ not in names:
+                    names.append(p_)
+    if cname == "MultitaskGaussianLikelihood":
+        names = [n_ for n_ in names if n_ == "noise_prior"]
+    if not names:
+        ctx.reject(f"{cname}: no *_prior constructor argument")
+        return
+    for i, p_ in enumerate(names):
+        kw[p_] = P.NormalPrior(0.1 * i, 1.0 + 0.1 * i) if p_ in ("constant_prior",) else P.GammaPrior(2.0 + 0.3 * i, 1.5 + 0.1 * i)
+    try:
+        try:
+            module = cls_(**kw)
+        except TypeError:
+            kw.pop("lengthscale_prior", None)  # kernels without a lengthscale
+            names = [n_ for n_ in names if n_ != "lengthscale_prior"]
+            module = cls_(**kw)
+    except Exception as e:
+        ctx.reject(f"{cname}: constructor refused the priors: {type(e).__name__}")
+        return
+    util.randomize(module, g, 0.6)
+    found = 0
+    for name, mod, prior, closure, setter in module.named_priors():
+        attr = name.rsplit(".", 1)[-1][: -len("_prior")]
+        attr = {"mean": "constant"}.get(attr, attr) if isinstance(mod, Mn.ConstantMean) else attr
+        if not name.endswith("_prior") or not isinstance(getattr(type(mod), attr, None), property):
+            ctx.info[f"ctor_prior_unresolved:{cname}.{name}"] += 1
+            continue
+        found += 1
+        with torch.no_grad():
+            seen, want = closure(mod), getattr(mod, attr)
+        ctx.expect("ctor_prior_closure_reads_its_parameter", seen.shape == want.shape and bool(torch.equal(seen, want)), f"{cname}: prior '{name}' is evaluated at a value that is not {type(mod).__name__}.{attr}", target=f"{cname}.{name}")
+        if setter is not None:
+            cons = mod._constraints.get(f"raw_{attr}_constraint")
+            if cons is not None and bool(torch.isfinite(cons.upper_bound).all()) and bool(torch.isfinite(cons.lower_bound).all()):
+                mid = 0.5 * (cons.upper_bound + cons.lower_bound).to(want)
+                new = (want.detach() + (0.2 + 0.3 * util.rand(g, *want.shape)) * (mid - want.detach())).clone()
+            else:
+                new = (want.detach() * (1.05 + 0.1 * util.rand(g, *want.shape)) + 0.011).clone()
+            before = {a_: getattr(mod, a_).detach().clone() for a_ in dir(type(mod)) if isinstance(getattr(type(mod), a_, None), property) and a_ != attr and a_ in [n_[4:] for n_ in mod._parameters if n_.startswith("raw_")]}
+            try:
+                setter(mod, new)
+            except Exception as e:
+                ctx.fail("ctor_prior_setting_closure_writes_its_parameter", f"{cname}: setting closure of '{name}' raised {type(e).__name__}: {str(e)[:100]}", "raise", target=f"{cname}.{name}")
+                continue
+            back = getattr(mod, attr).detach()
+            ctx.close("ctor_prior_setting_closure_writes_its_parameter", back, new.expand_as(back), (1e-9, 1e-7), cls="ctor_prior_set", target=f"{cname}.{name}")
+            for a_, v_ in before.items():
+                ctx.expect("ctor_prior_setting_closure_leaves_siblings", bool(torch.equal(getattr(mod, a_).detach(), v_)), f"{cname}: setting closure of '{name}' changed {a_}", target=f"{cname}.{name}")
+    ctx.cell({"cls": cname, "priors": names}, nontrivial=found >= 1)
 
 
 def _registered(case, ctx, g):
